@@ -310,8 +310,9 @@ func (g *gen) svgElem(depth int, hidden bool) string {
 		attrs += rng.Pick(g.r, ` display="none"`, ` visibility="hidden"`)
 		hidden = true
 	}
-	if g.r.P(1, 10) {
-		attrs += ` stroke-dasharray="` + rng.Pick(g.r, "4 2", "0", "1 0 3", "none", "5") + `"`
+	if g.r.P(1, 4) {
+		attrs += g.dashAttrs()
+		g.feat("svg-dash")
 	}
 	n := func(max int) int { return g.r.Range(0, max) }
 	kind := ""
@@ -426,12 +427,29 @@ func (g *gen) svgElem(depth int, hidden bool) string {
 }
 
 // svgURI is a small SVG image as a data: URI (for <img> and backgrounds), nodes uniquely coloured
+// dashAttrs: a stroked shape with a dash array (incl. arrays that sum to zero, in mixed units) and a dash offset
+// (negative, zero, huge): SetDash must receive finite numbers
+func (g *gen) dashAttrs() string {
+	arr := rng.Pick(g.r, "4 2", "0", "0 0", "0em, 0%", "0 0 0", "1 0 3", "none", "5", "0.5em 10%", "0,0,0,0", "3,-1", "1e9 1")
+	off := rng.Pick(g.r, "", "", "-3", "0", "-0.5", "1e9", "-1e9", "7", "-2em", "-50%", "2.5")
+	s := fmt.Sprintf(` stroke="%s" stroke-width="%v" stroke-dasharray="%s"`, rng.Pick(g.r, "black", "#00f", "black", "none"), float64(g.r.Range(0, 8))/2, arr)
+	if off != "" {
+		s += fmt.Sprintf(` stroke-dashoffset="%s"`, off)
+	}
+	return s
+}
+
 func (g *gen) svgURI() string {
 	f1, c1 := g.svgFill()
 	f2, c2 := g.svgFill()
 	g.spec.SvgKinds[c1] = "svg"
 	g.spec.SvgKinds[c2] = "circle"
-	return fmt.Sprintf("data:image/svg+xml,<svg xmlns=%%22http://www.w3.org/2000/svg%%22 width=%%2210%%22 height=%%2210%%22 fill=%%22%%23%s%%22><circle cx=%%225%%22 cy=%%225%%22 r=%%224%%22 fill=%%22%%23%s%%22/></svg>", f1[1:], f2[1:])
+	dash := ""
+	if g.r.P(1, 3) {
+		dash = strings.NewReplacer(`"`, "%22", "#", "%23", "%", "%25").Replace(g.dashAttrs())
+		g.feat("svg-dash")
+	}
+	return fmt.Sprintf("data:image/svg+xml,<svg xmlns=%%22http://www.w3.org/2000/svg%%22 width=%%2210%%22 height=%%2210%%22 fill=%%22%%23%s%%22><circle cx=%%225%%22 cy=%%225%%22 r=%%224%%22 fill=%%22%%23%s%%22%s/></svg>", f1[1:], f2[1:], dash)
 }
 
 func (g *gen) svg() string {
